@@ -12,10 +12,10 @@ CHECKS = {
  'C02': ('exploration', 'hx+ovl', 'sandwich oracle (strict/permissive independent record parser + digest recomputation) over systematic record mutants and a parameter-set shape matrix; the schema rules for unsupported files also through the agent interface and the command line',
          'Systematic mutants of reference-written records for every parameter set are authenticated with right/empty/wrong passwords and put through list, list-full, add, update and remove; verdicts are judged by an independent schema implementation with a strict and a permissive reading, so only answers outside the latitude the schema leaves are flagged. Canonical foreign-written records must authenticate.',
          'Trusts go/ref (independent scrypt+HMAC / argon2id recomputation); hang detection uses a 30 s/90 s limit on a deterministic call.', '5 C02'),
- 'C05': ('exploration', 'hx', 'trace monitor on a raw unix-socket client + callback recorder (incl. slow callbacks), judged by a reference wire decoder; Go race detector on the same runs; descriptor-exhaustion stage under a low RLIMIT_NOFILE',
+ 'C05': ('exploration', 'hx', 'trace monitor on a raw unix-socket client + callback recorder (incl. slow callbacks), judged by a reference wire decoder; Go race detector on the same runs; descriptor-exhaustion stage under a low RLIMIT_NOFILE; callbacks failing with OS-style transient errors (Temporary()/Timeout(), wrapped errno, deadline / context errors)',
          'Thousands of scripted byte streams (valid, truncated at every byte, over-long, padded, random) under scripted fragmentations, pauses and end modes are sent to the real sasl.Server; a monitor attributes every callback invocation to its connection and checks call count, argument equality, the one-part-then-EOF reply shape, the OK-only-if-approved rule and decodability of every reply by the bundled client decoder, for scripted callback outcomes with messages up to 70000 bytes; 64-way concurrent phase under -race.',
          'Trusts go/ref/wire.go; a request kept open forever is not a finished byte stream (nothing asserted); the compiled PAM module reads real replies in the C20 check.', '5 C05'),
- 'C13': ('exploration', 'hx+pamh', 'differential oracle against a reference codec; scripted io.Readers for fragment independence',
+ 'C13': ('exploration', 'hx+pamh', 'differential oracle against a reference codec; scripted io.Readers for fragment independence; retained-result monitor (bytes returned by Marshal compared after later and concurrent encodes)',
          'All 5^4 length combinations at the limit values x 3 content classes for the request encoder (exhaustive over that finite grid), response messages around the limits, decoder-vs-reference on mutated encodings / random bytes / the repository fuzz corpus, and every input re-decoded under 1-byte, 2-way, k-way, zero-length-read and data-with-EOF fragmentations, which must equal the one-piece result.',
          'Trusts go/ref/wire.go. The PAM encoder clause is decided by the pam-encoder stage: the compiled module (with short writes injected) talks to a recording server and the bytes are compared with sasl.Request.Marshal.', '5 C13'),
  'C14': ('exploration', 'hx+ovl', 'strict reference parser + independent digest recomputation over records written under generated YAML configurations, and over records an agent writes after SIGHUP reloads',
@@ -27,7 +27,7 @@ CHECKS = {
  'C07': ('exploration', 'ovl', 'in-package monitor with an issued-token table and a lenient reference decoder; race detector',
          'Every single-bit flip, character substitution, truncation, extension and splice of issued tokens, other-instance tokens and chosen plaintexts sealed with the factory key are presented; acceptance is allowed only for decoded content equal to an issued (nonce, ciphertext) pair and must return the issued identity; nonce uniqueness over 10^5..2*10^6 sequential plus 16-way concurrent issuances under -race.',
          'Not a cryptographic argument about AES-GCM; time-window cases keep a 3 s margin and are re-run on clock stalls.', '5 C07'),
- 'C10': ('exploration', 'ovl+hx', 'bounded-progress monitor with goroutine-dump analysis proving a permanent block; delay failpoints; race detector',
+ 'C10': ('exploration', 'ovl+hx', 'bounded-progress monitor with goroutine-dump analysis proving a permanent block; delay failpoints; race detector; logical starvation monitor under a never-empty login queue (request unanswered after 1500 later logins were answered); stalled-connection stage with proved block of the accept loop (goroutine dumps)',
          'Mixed request load from 4-64 clients over all upgrade modes (off/local/remote healthy, unreachable, stalled), hook directories with hanging scripts, all frontends; the monitor requires every request to return and a probe per request channel afterwards, and reports a violation only when two goroutine dumps prove the dispatcher blocked at the same place. Queue-occupancy histogram at upgrade enqueue shows the risky state (queue full) was reached. A second stage exhausts the descriptors of the running binary (low RLIMIT_NOFILE) and requires it to keep accepting afterwards.',
          'Liveness restated as bounded progress; schedules are steered, not enumerated.', '5 C10'),
  'C11': ('exploration', 'ovl+hx', 'porcupine linearizability check of client-boundary histories against a sequential store model; final-state conservation checks; race detector; answer-vs-effect monitor under a 12 s request backlog; web-update-vs-login races against the built binary',
@@ -36,34 +36,34 @@ CHECKS = {
  'C18': ('exploration', 'hx+ovl', 'must-accept/must-reject predicates over structurally mutated YAML; accepted sets exercised (hash+verify); reload monitor',
          'Hundreds of YAML documents derived from valid configurations by field deletion, duplication, type change, unknown keys and numeric edges are loaded; the verdict must match the rule the generator broke, and every accepted parameter set must hash-and-verify or fail with an error (panic/hang = violation). Reload stages (in-process with real SIGHUPs, and black-box against the binary) identify the configuration being served from behaviour after good reloads, unloadable documents and configurations whose directory fails the check, with background clients running through all of them.',
          'Parameter values needing > 256 MiB or unbounded time are not generated; duplicate ids unasserted.', '5 C18'),
- 'C08': ('fault_enumeration', 'sctrace+hx', 'real SIGKILL at every syscall boundary (strace injection) + offline persistence-model enumeration of post-crash states, each judged by a fresh-process recovery oracle; concurrent raw readers',
+ 'C08': ('fault_enumeration', 'sctrace+hx', 'real SIGKILL at every syscall boundary (strace injection) + offline persistence-model enumeration of post-crash states, each judged by a fresh-process recovery oracle; concurrent raw readers; Authenticate readers against a writer process that re-hashes an unchanged password under alternating parameter sets (every verdict must be positive)',
          'For every add/update/init scenario the operation is killed for real on entry to every file-system-relevant syscall (boundary coverage is measured and every boundary is hit), and an offline model of the stated persistence semantics enumerates, at every boundary, every combination of lost/kept pending directory operations and unsynced data prefixes; each distinct state is materialised and judged by a fresh process (old-complete / new-complete / absent / empty reservation, passwords, other files, consistency check, residue). The simulator is cross-checked against the real post-kill directories. A separate writer process is raced by raw readers.',
          'Relative to the persistence model written in the property; kill points inside a syscall and torn sector writes are not observable; exhaustive over the boundaries of the traced executions, not over all executions.', '5 C08'),
  'C09': ('fault_enumeration', 'sctrace', 'persistence-model enumeration of post-acknowledgement crash states from the recorded syscall trace + write/fsync/rename ordering monitor; time-stamped multi-thread traces with delayed fsync returns; mkdir/fsync monitor over the command line',
          'For every successful mutating operation the recorded syscalls are replayed into the persistence model and every state reachable after the acknowledgement (any subset of not-yet-fsynced entry operations lost) is materialised and must show the change; an ordering monitor checks fsync(file) before the rename and fsync(base) before the acknowledgement.',
          'Relative to the stated persistence model and the syscalls of one traced execution per scenario.', '5 C09'),
- 'C15': ('fault_enumeration', 'sctrace+hx+ovl', 'every-single-fault injection at syscall level (strace error injection) with a fresh-process byte-identity oracle; syscall monitor for read-only calls; directory-diff monitor over name families; answer-vs-effect monitor under a request backlog',
+ 'C15': ('fault_enumeration', 'sctrace+hx+ovl', 'every-single-fault injection at syscall level (strace error injection) with a fresh-process byte-identity oracle; syscall monitor for read-only calls; directory-diff monitor over name families; answer-vs-effect monitor under a request backlog; whole-sandbox snapshot monitor (bytes, inodes, file and directory mtimes) around the command line\'s read-only / failing commands incl. a configuration whose base directory does not exist; stores carrying the residue of interrupted operations',
          'For each mutating scenario every syscall between the markers that can fail is made to fail once with each applicable errno (ENOSPC, EIO, EACCES, EMFILE); a reported failure must leave the store byte-identical, a reported success must be complete; hostile auxiliary data must survive updates byte for byte, set-admin must keep the inode; semantically failing and read-only calls must issue no mutating syscall on the store and leave it byte- and inode-identical. A second stage runs the binary under strace -ff while only read-only / refused requests arrive on all frontends (SASL, LDAP bind/search/modify/add/delete, refused HTTP) and searches every thread log for mutating syscalls on the store.',
          'Single faults only; the fault is injected at the syscall boundary (the syscall does not execute). Known findings listed in known-findings.json.', '5 C15'),
- 'C06': ('exploration', 'ovl', 'reference authorisation table + sequential store model as oracle over the enumerated endpoint x credential x target x body-shape matrix, with byte-level directory snapshots around every request',
+ 'C06': ('exploration', 'ovl', 'reference authorisation table + sequential store model as oracle over the enumerated endpoint x credential x target x body-shape matrix, with byte-level directory snapshots around every request; concurrent wrong- and right-password logins (no session for a wrong password, every session names its requester)',
          'The matrix (about 1800 cells per state incl. expired/future/tampered/other-instance/demoted-admin/removed-user tokens, case-variant and invalid names, malformed bodies, ambiguous update credentials) is evaluated in several store states reached by random walks of allowed requests; refused requests must return a non-success status, disclose no list and leave the directory byte-identical; allowed ones must have exactly the model effect.',
          'Handlers are driven in-process (httptest) with a test-owned session factory (the only way to mint expired tokens) plus a subset through newWebHandler itself.', '5 C06'),
- 'C12': ('exploration', 'ovl', 'before/after record monitor (strict reference parser + digest recomputation) around logins on every frontend, with a FIFO barrier instead of waiting; directory snapshots incl. inodes; master-side request recorder for remote mode',
+ 'C12': ('exploration', 'ovl', 'before/after record monitor (strict reference parser + digest recomputation) around logins on every frontend, with a FIFO barrier instead of waiting; directory snapshots incl. inodes; master-side request recorder for remote mode; stale work files of every plausible name planted before upgrade logins',
          'Library: upgradeable flag for every record x default x password. Agent: logins with right/wrong/near-miss passwords over all five frontends on stores mixing 4 parameter sets, every default (also switched by SIGHUP), with and without policy: record byte-identical or strict record under the default for exactly the login password with same extension and auxiliary bytes; must be rewritten on an idle agent when policy allows; converges; failed logins and upgrades-off change nothing (inode level); remote mode posts user + old password only and never touches the slave directory.',
          'Convergence restated with a FIFO barrier; remote POST awaited through the remote.done hook with a watchdog.', '5 C12'),
  'C17': ('exploration', 'ovl', 'reference policy (zxcvbn called directly) as oracle over all write paths incl. the built binary, with directory snapshots, also after SIGHUP reloads; sandwich oracle over condition strings',
          'Every write path (interface init/add/update, HTTP add/update by admin, own session and old password, CLI init/add/update of the binary, login-triggered upgrade) x condition kinds/thresholds x a password corpus x user names: refused exactly when the reference verdict fails, refused requests leave the directory identical; about 85 malformed or borderline condition strings and unknown types must stop constructor, NewStore and the binary, or be enforced with the written value.',
          'zxcvbn library trusted (the property defines the policy by it).', '5 C17'),
- 'C19': ('exploration', 'ovl', 'online trace-specification checker over the sequence-numbered hook event log (notify/timer/round/exec/kill) plus boundary observations written by the hook scripts themselves',
+ 'C19': ('exploration', 'ovl', 'online trace-specification checker over the sequence-numbered hook event log (notify/timer/round/exec/kill) plus boundary observations written by the hook scripts themselves; notification counting around login-triggered hash upgrades (one notification iff the record was rewritten)',
          'Notification timing patterns around the rate-limit timer (incl. a second change arriving while a round is being started, both notify/timer orders at the boundary) are driven against an in-package HooksCaller with a short rate limit; rules on the logical event order: every send is followed by a start of every eligible hook, rounds only after notify(pending=0) or timer(pending>1), at most two rounds between timer events, timer never early, each round starts exactly the eligible set; eligibility over all file-type/permission layouts incl. a directory made world-writable after start; agent wiring counts exactly one notification per successful mutation; a hanging hook never delays requests (thorough: killed not before 60 s).',
          'Decided on logical events; the abstract-model exploration mentioned in the anchors is replaced by driven timing patterns (evidence lists the distinct event sequences observed).', '5 C19'),
  'C16': ('exploration', 'hx+ovl', 'reference consistency predicate (sandwich on "supported") over generated directories; directory-invariant monitor after every operation of generated agent histories; exit-status monitor on the built binary',
          'Thousands of generated directories (extensions, contents, duplicates across extensions, .tmp variants, shuffled creation order, 1-40 entries) are judged by Check and by a reference predicate; Init must succeed exactly on empty directories and yield a valid store; after every completed operation of sequential agent histories (and a concurrent login/set-admin race with large auxiliary data) the directory invariants must hold; every command of the binary except init/check must exit 3 on invalid directories without changing them and run with --do-check=false.',
          'Directories are built from valid names only (the property quantifier).', '5 C16'),
- 'C20': ('exploration', 'pamh+hx', 'AddressSanitizer + UBSan build of the unmodified C module driven by a scripted misbehaving server; syscall-wrapper monitor (select/read/write) for the bounded-time rule; exact reply-prefix oracle',
+ 'C20': ('exploration', 'pamh+hx', 'AddressSanitizer + UBSan build of the unmodified C module driven by a scripted misbehaving server; syscall-wrapper monitor (select/read/write) for the bounded-time rule; exact reply-prefix oracle; long-lived-process cases (more failed logins than FD_SETSIZE before the agent is back) with descriptor accounting',
          'The module is compiled from /repo with clang -fsanitize=address,undefined against stub PAM headers and run against a scripted unix-socket server over ~420 cases (all option subsets x password sources, user/password lengths 0..4096, reply grammar incl. over-long and mis-announced lengths, replies cut at every byte, dribble, early close, silence and delays on both sides of the timeout, short reads/writes and EINTR injected by wrappers): PAM_SUCCESS exactly when the readable reply begins with OK, request bytes equal the saslauthd encoding of the clipped fields, every socket read/write preceded by a finite select, no sanitizer report. Further stages: the same build against the real agent binary (verdict = store verdict for the clipped fields) and, in the thorough tier, an uninstrumented build under valgrind memcheck.',
          'Stub PAM runtime; sanitizers are not a proof of memory safety; fds >= FD_SETSIZE out of scope.', '5 C20'),
- 'C04': ('exploration', 'hx', 'differential monitor: every frontend of the running binary against store.Dir.Authenticate on the same quiescent directory',
+ 'C04': ('exploration', 'hx', 'differential monitor: every frontend of the running binary against store.Dir.Authenticate on the same quiescent directory; the same differential monitor on the TLS listeners (HTTPS, LDAPS, LDAP StartTLS) and on an agent started through systemd-style socket activation (runsa)',
          'The built binary serves a saslauthd socket, HTTP and LDAP on loopback port 0 (addresses parsed from its output); generated credential pairs with bytes special to one transport, boundary lengths, name variants and hostile names are submitted through SASL, basic-auth, API (plain and fully \\u-escaped JSON), LDAP bind and the CLI, and every verdict is compared with the store verdict taken before and after; store states advance through CLI/API management operations; induced store errors must be denials; a 32-way concurrent phase checks that verdicts are not swapped.',
          'The store verdict is the oracle (the library itself is judged by C01/C02); transport limits honoured by the generator as listed in the assumptions.', '5 C04'),
 }
